@@ -37,7 +37,9 @@ RULE = ("one cache per case: limit in {0 (none),1,2,3}, default expiry in {2,3,5
         "deviation for base durations 1 ms .. 10 years incl. 1 h, 3 h, 6 h, 1 d, 30 d, 1 y and 16 scripted draws each); an "
         "authenticator stream (kind auth, rpc/internal/auth on miniredis: set/del tokens, store outages of at most 4 "
         "failing lookups, calls with right and wrong tokens, strict and non-strict); thorough tier only: end-to-end "
-        "cases with expiries 1 h, 3 h, 6 h stepped tick by tick; plus a malformed stream (expiry <= 0, expiry around one second, limit < 0); "
+        "cases with expiries 1 h, 3 h, 6 h stepped second by second; quick tier: end-to-end long expiries {3 h, 6 h, 1 d, "
+        "30 d, 1 y} on the same cache built (in-package) on a 300-slot wheel with interval 1 min .. 7 d so that "
+        "8 <= e/I <= 420 ticks, with a re-set on the way; plus a malformed stream (expiry <= 0, expiry around one second, limit < 0); "
         "non-trivial = an entry was seen to expire and (for limit > 0) an entry was evicted or a key was re-set; "
         "distinct = distinct canonical case JSON")
 TRUSTED = ["miniredis as the token store and its Close/Restart as the outage (auth stream); the store's circuit breaker "
@@ -47,7 +49,11 @@ TRUSTED = ["miniredis as the token store and its Close/Restart as the outage (au
            "scripted draw and handed to the model as an input",
            "Go map / container/list semantics (data as association list, LRU as a list of keys)",
            "syncx.SingleFlight with a single caller runs the function once (concurrent callers: C18)"]
-ASSUMPTIONS = ["calls are sequential and the wheel's expiry callbacks (cache.Del) have finished before the next call "
+ASSUMPTIONS = ["every wait of the driver is bounded (4 s per case); a case in which the cache or its wheel gets stuck is "
+               "reported as hung and fails both checkers (obs:HUNG in input_distribution, 0 on the unchanged tree)",
+               "after every call the driver reads the wheel's index: spec_ok requires every stored entry to have a pending "
+               "timer (a SetTimer/MoveTimer error swallowed by cache.go leaves an entry that never expires)",
+               "calls are sequential and the wheel's expiry callbacks (cache.Del) have finished before the next call "
                "(driver waits); racing Set/expiry and concurrent Take callers are not covered here",
                "expiries whose jittered value can fall below the one-second wheel interval (0.95*expire < 1 s) are "
                "outside the window clause: checked against the model only",
@@ -190,6 +196,36 @@ def _auth(rng):
     return {"kind": "auth", "strict": strict, "ops": ops}
 
 
+MIN = 60 * S
+DAY = 24 * H
+
+
+def _long_quick(rng):
+    """end-to-end long expiry on a wheel with a large interval (300 slots): present before floor(0.95e/I), gone
+    after floor(1.05e/I)+1, with a re-set on the way"""
+    e = rng.choice([3 * H, 6 * H, DAY, 30 * DAY, 365 * DAY])
+    iv = rng.choice([i for i in (MIN, 10 * MIN, H, DAY, 7 * DAY) if 8 <= e // i <= 420])
+    lo, hi = e * 95 // 100 // iv, e * 105 // 100 // iv
+    keys = ["k0", "k1", "k2"]
+    calls = [{"op": "set", "key": "k0", "val": 1, "draw": _draw(rng)}, {"op": "set", "key": "k1", "val": 2, "draw": 0},
+             {"op": "set", "key": "k2", "val": 3, "draw": 2 ** 63 - 2048}]
+    if rng.random() < 0.5:
+        calls.append({"op": "take", "key": "k3", "val": 4, "fail": False, "draw": _draw(rng)})
+        keys.append("k3")
+    t = 0
+    reset_at = rng.randrange(1, max(2, lo)) if rng.random() < 0.6 else None
+    while t < hi + 2 + (reset_at or 0):
+        if reset_at is not None and t == reset_at:
+            calls.append({"op": "set", "key": "k0", "val": 9, "draw": _draw(rng)})   # re-schedules k0 from here
+        if t in (lo - 1, hi + 1) or rng.random() < 0.03:
+            calls.append({"op": "get", "key": rng.choice(keys)})
+        calls.append({"op": "tick"})
+        t += 1
+    for k in keys:
+        calls.append({"op": "get", "key": k})
+    return {"kind": "cache", "expire": e, "limit": rng.choice([0, 0, 4]), "phase": rng.randrange(300), "interval": iv, "calls": calls}
+
+
 def _long(rng, hours):
     e = hours * H
     calls = [{"op": "set", "key": "k0", "val": 1, "draw": _draw(rng)}, {"op": "set", "key": "k1", "val": 2, "draw": 0},
@@ -207,7 +243,10 @@ def generate(rng, tier, n):
     cases += [_jitter(rng) for _ in range(nj)]
     cases += [_auth(rng) for _ in range(na)]
     while len(cases) < n:
-        if rng.random() < 0.2:
+        r = rng.random()
+        if r < 0.12:
+            cases.append(_long_quick(rng))
+        elif r < 0.3:
             cases.append(_reinsert(rng))
         else:
             cases.append(_case(rng, rng.random() < 0.15 and tier != "search"))
@@ -281,6 +320,8 @@ def encode(case, obs):
                 ops.append("ACall %s %s" % (_n(o["app"]), _n(o["token"])))
         codes = [cnat(c if c >= 0 else 99) for c in obs.get("codes", [])]
         return "CA (mka %s %s %s)" % (cbool(case["strict"]), clist(ops), clist(codes))
+    if obs.get("skipped"):      # the driver stopped running cases after too many of them hung
+        return "CC (mkcase %s %s 0%%nat %s false [] [])" % (cZ(case["expire"]), cZ(case["limit"]), cZ(S))
     ops, os_ = [], []
     for c, o in zip(case["calls"], obs.get("obs", [])):
         op = c["op"]
@@ -296,11 +337,13 @@ def encode(case, obs):
             ops.append("KTake %s %s %s" % (_k(c["key"]), copt(None if c.get("fail") else cnat(c["val"])), cZ(o["jit"])))
         else:
             ops.append("KTick")
-        os_.append("mkObs %s %s %s %s" % (copt(cnat(o["val"]) if o["found"] else None), cbool(o["err"]), cbool(o["fetched"]),
-                                          clist([_k(k) for k in o["keys"]])))
+        os_.append("mkObs %s %s %s %s %s" % (copt(cnat(o["val"]) if o["found"] else None), cbool(o["err"]), cbool(o["fetched"]),
+                                             clist([_k(k) for k in o["keys"]]), clist([_k(k) for k in o.get("timers", [])])))
     if len(os_) != len(case["calls"]):
         os_ = []
-    return "CC (mkcase %s %s %s %s %s)" % (cZ(case["expire"]), cZ(case["limit"]), cnat(case["phase"]), clist(ops), clist(os_))
+    hung = bool(obs.get("hung")) or "error" in obs or len(obs.get("obs", [])) != len(case["calls"])
+    return "CC (mkcase %s %s %s %s %s %s %s)" % (cZ(case["expire"]), cZ(case["limit"]), cnat(case["phase"]), cZ(case.get("interval", S)),
+                                                 cbool(hung), clist(ops), clist(os_))
 
 
 def _events(case, obs):
@@ -326,6 +369,8 @@ def nontrivial(case, obs):
     if case.get("kind") == "auth":
         ops = [o["op"] for o in case["ops"]]
         return "down" in ops and "call" in ops[ops.index("down"):]
+    if obs.get("skipped"):
+        return False
     expired, evicted, reset = _events(case, obs)
     return expired and (evicted or reset)
 
@@ -340,6 +385,8 @@ def bucket(case, obs):
             out.append("auth:outage")
         out += ["auth:code=%d" % c for c in sorted(set(obs.get("codes", [])))]
         return out
+    if obs.get("skipped"):
+        return ["obs:SKIPPED-after-hung-cases"]
     out = ["limit=%d" % case["limit"], "expire=%ss" % (case["expire"] // S), "phase=%d" % (case["phase"] // 50 * 50)]
     out += ["op:" + k for k in sorted({c["op"] for c in case["calls"]})]
     expired, evicted, reset = _events(case, obs)
@@ -352,6 +399,11 @@ def bucket(case, obs):
             break
     if case["expire"] >= H:
         out.append("hist:long-expiry-end-to-end")
+    if case.get("interval", S) != S:
+        out.append("wheel:interval=%s" % ("1min" if case["interval"] == MIN else "10min" if case["interval"] == 10 * MIN else
+                                          "1h" if case["interval"] == H else "1d" if case["interval"] == DAY else "7d"))
+    if obs.get("hung"):
+        out.append("obs:HUNG")
     if expired:
         out.append("obs:expired")
     if evicted:
@@ -360,7 +412,7 @@ def bucket(case, obs):
         out.append("obs:re-set")
     if any(o["err"] for o in obs.get("obs", [])):
         out.append("obs:take-error")
-    if case["expire"] * 95 // 100 - 1000 < S:
+    if case["expire"] * 95 // 100 - 1000 < case.get("interval", S):
         out.append("scope:expiry-below-one-tick")
     if obs.get("timeouts"):
         out.append("obs:settle-timeout")
